@@ -255,7 +255,7 @@ func c04ladder(c *an.Ctx) {
 	if f := c.Fn("C04.ladder", "(*Template).unaryExpression"); f != nil {
 		okNot, okSign := false, false
 		if cc := caseClause(f, "itemNot"); cc != nil {
-			ast.Inspect(cc, func(n ast.Node) bool {
+			armInspect(f, cc, func(n ast.Node) bool {
 				if call, ok := n.(*ast.CallExpr); ok && an.CalleeName(info, call) == "(*jet.Template).comparativeExpression" {
 					okNot = true
 				}
@@ -267,7 +267,7 @@ func c04ladder(c *an.Ctx) {
 			for _, e := range cc.List {
 				got[an.Str(e)] = true
 			}
-			ast.Inspect(cc, func(n ast.Node) bool {
+			armInspect(f, cc, func(n ast.Node) bool {
 				if call, ok := n.(*ast.CallExpr); ok && an.CalleeName(info, call) == "(*jet.Template).newAdditiveExpr" && len(call.Args) == 5 {
 					if an.Str(call.Args[2]) == "nil" {
 						if oc, ok := an.Unparen(call.Args[3]).(*ast.CallExpr); ok && an.CalleeName(info, oc) == "(*jet.Template).operand" {
@@ -285,7 +285,7 @@ func c04ladder(c *an.Ctx) {
 	if f := c.Fn("C04.ladder", "(*Template).term"); f != nil {
 		ok := false
 		if cc := caseClause(f, "itemLeftParen"); cc != nil {
-			ast.Inspect(cc, func(n ast.Node) bool {
+			armInspect(f, cc, func(n ast.Node) bool {
 				if call, isCall := n.(*ast.CallExpr); isCall && an.CalleeName(info, call) == "(*jet.Template).expression" {
 					ok = true
 				}
@@ -577,7 +577,7 @@ func c04ops(c *an.Ctx) {
 			}
 			var wrong []string
 			cnt := 0
-			ast.Inspect(cc, func(m ast.Node) bool {
+			armInspect(f, cc, func(m ast.Node) bool {
 				if b, ok := m.(*ast.BinaryExpr); ok && class(b.Op) {
 					cnt++
 					n++
@@ -800,7 +800,7 @@ func c04kinds(c *an.Ctx) {
 				}
 				for _, g := range []string{"isInt(kind)", "isUint(kind)"} {
 					found := false
-					ast.Inspect(cc, func(m ast.Node) bool {
+					armInspect(f, cc, func(m ast.Node) bool {
 						if is, ok := m.(*ast.IfStmt); ok && strings.ReplaceAll(an.Str(is.Cond), " ", "") == g && len(is.Body.List) == 1 {
 							if inner, ok := is.Body.List[0].(*ast.IfStmt); ok && an.Str(inner.Cond) == "needFloatPromotion" && inner.Else != nil {
 								found = true
